@@ -92,6 +92,12 @@ impl OpenStreamS {
 // RequestId
 // ------------------------------------------------------------------------------------------
 //@type protocol/src/request_id.rs :: RequestId
+//@map Arc::new => vx_arc_new
+//@map RequestId::default => vx_fresh_request_id
+pub fn vx_arc_new<T>(t: T) -> (r: T) ensures r == t { t }
+// a requestor (and all its clones) keeps ONE id counter for its whole life: starting a fresh counter lets ids collide with
+// requests that are still pending in the shared table
+#[verifier::external_body] pub fn vx_fresh_request_id() -> (r: RequestId) requires false /* [C04.request_ids_never_rewound] */ { unimplemented!() }
 //@fn protocol/src/request_id.rs :: RequestId :: next_id [props=C04]
     ensures true,                          // injectivity of successive ids (< 2^32 calls per requestor) is an ASSUMPTION on AtomicU32::fetch_add
 //@end
@@ -115,13 +121,13 @@ pub open spec fn zip(c: Option<Comp>, plain: Seq<u8>) -> Option<Seq<u8>> { match
     ensures
         r is Ok ==> unz(old(self).decompression, bytes@) is Some && old(self).decoder.dec(unz(old(self).decompression, bytes@)->Some_0) == Some(r->Ok_0),   // [C04.reply_value_is_the_decoded_payload]
 //@end
-//@fn client/src/streams/request_reply/requestor.rs :: Requestor :: queue_request [props=C04]
+//@fn client/src/streams/request_reply/requestor.rs :: Requestor :: queue_request [props=C04 C12]
     ensures
         final(self).pending_requests == old(self).pending_requests, final(self).decoder == old(self).decoder, final(self).decompression == old(self).decompression, final(self).request_timeout == old(self).request_timeout,
         // the receiver handed back is the other end of the sender registered under the id handed back
         final(self).pending_requests.registered(r.0, r.1.chan()),                                                  // [C04.receiver_paired_with_its_request_id]
 //@end
-//@fn client/src/streams/request_reply/requestor.rs :: Requestor :: request [props=C04] [guards=*]
+//@fn client/src/streams/request_reply/requestor.rs :: Requestor :: request [props=C04 C12] [guards=*]
     requires
         alloc_budget() >= usize::MAX,
     ensures
@@ -142,7 +148,7 @@ pub open spec fn zip(c: Option<Comp>, plain: Seq<u8>) -> Option<Seq<u8>> { match
 //@end
 
 // the reply dispatcher (body of the task spawned by poll_replies)
-//@fn client/src/streams/request_reply/requestor.rs :: - :: poll_replies [props=C04] [spawn_body] [nodecreases] [as=poll_replies__task_body]
+//@fn client/src/streams/request_reply/requestor.rs :: - :: poll_replies [props=C04 C12] [spawn_body] [nodecreases] [as=poll_replies__task_body]
     ensures true,
 //@hint before "if let Ok(req_id) = str_parse_u32"
                     let ghost v0 = lock.view();
